@@ -75,8 +75,8 @@ struct ghost {
   } e;
   bool may_block;       /* an OS contract that is allowed to sleep was used   */
   /* ---- last read / write / poll (to tie library results to kernel results) - */
-  struct { int rd_calls, rd_fd; const void *rd_buf; size_t rd_n; long rd_ret; int rd_errno; } rl;
-  struct { int wr_calls, wr_fd; const void *wr_buf; size_t wr_n; long wr_ret; int wr_errno; } wl;
+  struct { unsigned rd_calls; int rd_fd; const void *rd_buf; size_t rd_n; long rd_ret; int rd_errno; } rl;
+  struct { unsigned wr_calls; int wr_fd; const void *wr_buf; size_t wr_n; long wr_ret; int wr_errno; } wl;
   struct {
     int poll_calls, poll_timeout, poll_ret; int64_t poll_at;
     uint32_t poll_fds;    /* descriptors handed to the last poll                */
